@@ -65,6 +65,25 @@ CHECKS = {
         text="All 16 (numInGroup, blockLength) type pairs x N in 0..3 x wire BL in {0,1,4,6} x iterator expression chains of depth 2 (quick) / 3 (thorough), nested forward ranges, resize/clear frame, and header-only boundary vectors near 2^8..2^64; random iterator walks validated by the trace spec.",
         note="Huge-header vectors form addresses beyond the buffer (never dereferenced; compared as integers). One known finding: difference_type = make_signed<size_type> (public typedef, not fixed).",
         design="5/C12"),
+    "C06": dict(
+        category="model_checking",
+        technique="TLC model checking of Fits.tla (budgeted reference walk vs independent structure size; in-bounds reads; bounded work) + replay of every (shape, view, corruption, n) vector into size_bytes_checked on guard-paged buffers with a step-counter hook",
+        text="Every truncation point n of every explored image, every single overwrite of a blockLength/numInGroup/length field with {0,1,fit-1,fit+1,type max} (pairs in thorough), message and group views: returned (valid,size), no read at offset >= n (PROT_NONE page at n), no assertion, step count <= K(n+1).",
+        note="Two finding classes recorded, not repaired: wire blockLength smaller than the compiled fields' extent (fields read past the validated block) and assertion-enabled builds aborting in get_header before validation.",
+        design="5/C06"),
+    "C10": dict(
+        category="model_checking",
+        technique="TLC model checking of Checked.tla (Touched/Req/Pre footprints from the operational layer, outcome relation) + replay of every (image, view length n, operation) vector in checked builds with guard pages on both sides",
+        text="Every accessor kind (leaf get/set, composite/array views and 11 array ops, header access/fill, group size/resize/begin/end/[]/front/back/iterator steps, nested iteration, 25 data operations, size_bytes, visit, five cursor wrappers) x view lengths n x hostile header variants: "
+             "must_assert / must_ok / either from the spec; violations are silent out-of-view access (guard fault without handler) and spurious handler calls.",
+        note="Where the documentation is silent about whole-object checks the spec allows both outcomes. Observation (not alarmed): assign_range/assign(first,last) of <data> copy before the size check fires.",
+        design="5/C10, Appendix B"),
+    "C11": dict(
+        category="exploration",
+        technique="TLC model checking of Caps.tla (permission lattice, ConstIsSticky) + its permission table compiled into detection-idiom static_asserts and must-fail TUs against generated headers + read-only (PROT_READ) walks of every decode image through const views",
+        text="930 permission rows (operation x access path x view/cursor constness) x schemas x compilers/standards as static_asserts, explicit instantiation of every allowed row, negative compile tests for hard-error rejections, conversions/element constness; every getter, size query, iterator, cursor getter and visit call on read-only mappings.",
+        note="'Rejected at compile time' is decided by the installed compilers; rows the documentation leaves open are marked unspecified.",
+        design="5/C11"),
     "C07": dict(
         category="exploration",
         technique="TLC model checking of Names.tla / LiteralMatrix.tla (mangling discipline clash-free, public path = schema name) + every TLC-enumerated schema compiled by the real sbeppc, every generated header compiled alone, and a generated touch-everything TU naming every public path",
